@@ -150,6 +150,7 @@ class Extract:
             s = ob
         # ----- signature (S1, S2)
         sig = src[s:ob]
+        sig = re.sub(r"//[^\n]*", "", sig)     # line comments between parameters would swallow the rest of the one-line signature
         sig_nl = sig.count("\n")
         sigm = msk[s:ob]
         sig = re.sub(r"^\s*(?:pub(?:\([a-z: ]+\))?\s+)?", "pub ", sig, count=1)
